@@ -20,58 +20,58 @@ def na(id, reason):
     P[id] = (False, reason)
 
 claim("C01", "other",
-      "Decides structural necessary conditions of crash atomicity/durability on every path of the current source: success replies only after a synchronous commit whose result steers the status (R1), a single commit funnel that writes bitmap bits before the durability point (R2), complete allocation bookkeeping with the right polarity (R3), no raw disk access behind the journal after recovery (R4), format order (R5), self-contained shrink transactions (R6), no operation through a finished transaction, the WRITE stability dispatch and COMMIT flush (R8, R9 = C07.U2/U1), disk decorators delegating every operation incl. Barrier (R10). It does not decide that the recovered state equals a prefix of the history - that needs the disk trace and the journal's own correctness.",
+      "Decides structural necessary conditions of crash atomicity/durability on every path of the current source: success replies only after a synchronous commit whose result steers the status (R1), a single commit funnel that writes bitmap bits before the durability point (R2), complete allocation bookkeeping with the right polarity (R3), no raw disk access behind the journal after recovery (R4), format order (R5), self-contained shrink transactions (R6), no operation through a finished transaction, the WRITE stability dispatch and COMMIT flush (R8, R9 = C07.U2/U1), disk decorators delegating every operation incl. Barrier (R10). It does not decide that the recovered state equals a prefix of the history - that needs the disk trace and the journal's own correctness. Later clauses: a shrink transaction is kept within the log counting the bitmap blocks of the commit (R13), no short write and no failed directory update is taken for done (R14, R16), a block number that can be 0 never becomes a block address (R11, R17), a refused commit is reported (R18).",
       "must-pass-through / who-may-call / typestate over go/ssa + VTA call graph", "DESIGN.md section 3 C01")
 claim("C03", "other",
-      "Decides the strict two-phase-locking discipline: cached inodes are used only inside their lock's critical section (T1), locks are released only after the commit point and only at frozen early-release sites (T2), abort-and-relock sites revalidate generation and name (T3), the inode-cache slot is looked up only under the inode lock (T4), an aborting transaction drops the cached inodes it modified before it unlocks (T5), NOENT only where a lookup found nothing (T6), a re-locked inode is read from the committed state, not from the transaction's own buffers (T7). Does not decide the existence of a linearization for a history.",
+      "Decides the strict two-phase-locking discipline: cached inodes are used only inside their lock's critical section (T1), locks are released only after the commit point and only at frozen early-release sites (T2), abort-and-relock sites revalidate generation and name (T3), the inode-cache slot is looked up only under the inode lock (T4), an aborting transaction drops the cached inodes it modified before it unlocks (T5), NOENT only where a lookup found nothing (T6), a re-locked inode is read from the committed state, not from the transaction's own buffers (T7). Does not decide the existence of a linearization for a history. Also: one committed transaction per request (T10), existence checked under the lock in force and deciding the allocation (T12), RENAME relocks by directory identity with a completely filled list (T13).",
       "transaction typestate (ESP-style) + must-precede over go/ssa", "DESIGN.md section 3 C03")
 claim("C04", "other",
-      "Decides co-update disciplines that keep the on-disk structure well-formed: pointer/bitmap/inode co-update through the commit funnel (S1), name and link co-update (S2), link-count balance across inverse operations (S3), emptiness check before directory unlink (S4), range assertion on pointer-producing paths (S5), only regular files have client-settable content/size (S7), cache slots only under the lock (S8). Not the invariant on any concrete state.",
+      "Decides co-update disciplines that keep the on-disk structure well-formed: pointer/bitmap/inode co-update through the commit funnel (S1), name and link co-update (S2), link-count balance across inverse operations (S3), emptiness check before directory unlink (S4), range assertion on pointer-producing paths (S5), only regular files have client-settable content/size (S7), cache slots only under the lock (S8). Not the invariant on any concrete state. Also: ok results of directory updates used (S15), null block numbers never addressed (S16), a create goes ahead only when the lookup found nothing (S17), RENAME of a name onto itself changes nothing (S18).",
       "pairing / who-writes / guard dominance over go/ssa", "DESIGN.md section 3 C04")
 claim("C05", "other",
-      "Decides structural conditions of full reclamation: truncate-before-free and shrinker start (F1), allocator epilogues exactly at commit/abort (F2), no double return (F3), no resize of a half-freed inode (F4), link-count balance (F5), shrinker accounting (F6), index blocks released with their first slot and Shrink results handed on (F8, F1), refused commits undone (F9), no index block linked without a data block (F10), no stale inode copy after an early release (F12). Not the arithmetic of Shrink/indshrink.",
+      "Decides structural conditions of full reclamation: truncate-before-free and shrinker start (F1), allocator epilogues exactly at commit/abort (F2), no double return (F3), no resize of a half-freed inode (F4), link-count balance (F5), shrinker accounting (F6), index blocks released with their first slot and Shrink results handed on (F8, F1), refused commits undone (F9), no index block linked without a data block (F10), no stale inode copy after an early release (F12). Not the arithmetic of Shrink/indshrink. Also: every shrink request starts a shrinker that shrinks its inode (F6), shrink transactions fit in the log (F18), bmap reports what it linked (F19), READ does not map blocks behind the end of the file (F20).",
       "must-precede / must-use-result / who-may-call over go/ssa", "DESIGN.md section 3 C05")
 claim("C06", "other",
       "Lock-order analysis of every inode-lock acquisition site reachable from any entry point: each nested acquisition must match an ordering idiom (guarded ascending, sorted loop, allocator-fresh, owned); every transaction ends exactly once on every path; no foreign transaction under locks; mutex pairing; nothing held across retry iterations; every terminator releases all locks on every path (L5). Termination of retry loops is not decided.",
       "lock-order + transaction typestate over go/ssa", "DESIGN.md section 3 C06")
 claim("C07", "other",
-      "Decides the stability dispatch of WRITE (reported level is the dispatched level, asynchronous commit only on the UNSTABLE arm), flush-before-success in COMMIT on every success end state, presence and provenance of a per-instance write verifier, the upgrade when unstable writes are disabled, that an unstable write is acknowledged only when the journal accepted its commit, and that the three stability levels have their RFC 1813 wire values. Durability itself is the journal's.",
+      "Decides the stability dispatch of WRITE (reported level is the dispatched level, asynchronous commit only on the UNSTABLE arm), flush-before-success in COMMIT on every success end state, presence and provenance of a per-instance write verifier, the upgrade when unstable writes are disabled, that an unstable write is acknowledged only when the journal accepted its commit, and that the three stability levels have their RFC 1813 wire values. Durability itself is the journal's. Also: transactions sized by a request (WRITE, SYMLINK, READ) and by a truncation stay within the log, so that no refused commit makes COMMIT flush nothing (U5, U9); every byte of the verifier is a window of its source and all bytes are written (U10).",
       "SSA value identity + must-pass-through", "DESIGN.md section 3 C07")
 claim("C08", "other",
       "Decides handle-codec symmetry, generation bump at every birth/death on every path with fixed writers of Kind/Gen, the checking accessor's guards, and that every handle argument of every procedure is checked before a success reply, under the transaction that replies (a validation is void after that transaction aborts). Uniqueness over a history is not decided.",
       "codec symmetry + who-writes + guard dominance over go/ssa", "DESIGN.md section 3 C08")
 claim("C09", "other",
-      "Decides that error replies abort and never commit (A1), that abort discards in-place cache mutations (A2), that rejected/unsupported requests are effect-free (A4) and that commit results are not dropped (A5), cache slots only under the lock (A7), a commit the journal refuses is undone like an abort (A8). Equality of the whole state before/after is not decided.",
+      "Decides that error replies abort and never commit (A1), that abort discards in-place cache mutations (A2), that rejected/unsupported requests are effect-free (A4) and that commit results are not dropped (A5), cache slots only under the lock (A7), a commit the journal refuses is undone like an abort (A8). Equality of the whole state before/after is not decided. Also: request-sized transactions are bounded before they reach the journal (A14) and a refused commit is reported to the handler (A8).",
       "transaction typestate + reachability over go/ssa", "DESIGN.md section 3 C09")
 claim("C10", "other",
-      "Decides write-through of every cached inode mutation before commit (W1), name cache mirrors directory writes (W2), on-disk codecs are inverse and fit their slots (W3), caches dropped on abort (W4), cache slots only under the lock (W6), locks released only after the durability point (W7), no commit of an aborted transaction (W8), refused commits undone (W9). The comparison of two servers' observable state is not decided.",
+      "Decides write-through of every cached inode mutation before commit (W1), name cache mirrors directory writes (W2), on-disk codecs are inverse and fit their slots (W3), caches dropped on abort (W4), cache slots only under the lock (W6), locks released only after the durability point (W7), no commit of an aborted transaction (W8), refused commits undone (W9). The comparison of two servers' observable state is not decided. Also: bmap's 'allocated' answer is true exactly where it linked a pointer (W11).",
       "dirty/clean typestate + codec symmetry over go/ssa", "DESIGN.md section 3 C10")
 claim("C11", "other",
-      "Decides that each client-controlled quantity is validated before it reaches a trapping operation for the listed sinks (decode length, inode number range, offset overflow, count vs data, client-sized allocation), the nil-transaction and unchecked-nil-slice crash causes, name checks on both names, directory cookies, sizes settable on regular files only (V12), link counts kept positive (V13), terminators release their locks (V14), no use of a possibly-nil inode (V15), no allocation sized by the client (V16), directory code on directories only (V17), and an inventory of reachable explicit panics. Not a proof of panic freedom.",
+      "Decides that each client-controlled quantity is validated before it reaches a trapping operation for the listed sinks (decode length, inode number range, offset overflow, count vs data, client-sized allocation), the nil-transaction and unchecked-nil-slice crash causes, name checks on both names, directory cookies, sizes settable on regular files only (V12), link counts kept positive (V13), terminators release their locks (V14), no use of a possibly-nil inode (V15), no allocation sized by the client (V16), directory code on directories only (V17), and an inventory of reachable explicit panics. Not a proof of panic freedom. Also: replies can always be encoded (V22), inodes with names are not freed (V23), the name predicate is folded on its three cases (V7).",
       "taint + guard dominance over go/ssa", "DESIGN.md section 3 C11")
 claim("C12", "other",
-      "Decides zero-on-free on every path with a full-block zero loop (Z1), pointer drops paired with frees and fixed writers of pointer slots (Z2), tail clearing on every unaligned shrink (Z3), client buffers not retained by the journal (Z4), aborted mutations dropped from the cache (Z6), a pending shrink never forgotten (Z7). Contents for a particular history are not decided.",
+      "Decides zero-on-free on every path with a full-block zero loop (Z1), pointer drops paired with frees and fixed writers of pointer slots (Z2), tail clearing on every unaligned shrink (Z3), client buffers not retained by the journal (Z4), aborted mutations dropped from the cache (Z6), a pending shrink never forgotten (Z7). Contents for a particular history are not decided. Also: the arithmetic of the tail clearing (start, block, bound, dirty mark) (Z3), a truncation covers every block of the old size (Z14), READ ends its transaction and stops at the end of the file (Z13, Z16), null block numbers never addressed (Z15).",
       "must-precede / pairing / alias flow over go/ssa", "DESIGN.md section 3 C12")
 claim("C13", "other",
-      "Decides that directory cookies cannot equal the start sentinel (P1), that every page makes progress (P2), that attributes/handles are those of the named entry (P3) and that end-of-directory is reported only through the scan loop's own bound test (P4), handed-out cookies are accepted back (P5). Completeness under concurrent updates is not decided.",
+      "Decides that directory cookies cannot equal the start sentinel (P1), that every page makes progress (P2), that attributes/handles are those of the named entry (P3) and that end-of-directory is reported only through the scan loop's own bound test (P4), handed-out cookies are accepted back (P5). Completeness under concurrent updates is not decided. Also: the scan loop runs while offset < size and a page limit can answer 'more' (P4), only live entries are listed (P12), the head/last list protocol of the listers and its nil guard (P11).",
       "SSA lower-bound lattice + value identity", "DESIGN.md section 3 C13")
 claim("C14", "other",
       "Static lock-discipline check for the shared state of the server packages: cached inodes only under their lock (D1), mutex-guarded fields only under their mutex (D2), statistics only through sync/atomic (D3), nothing lock-protected escapes into a goroutine (D4), configuration written before serving (D5), shared-state inventory with one discipline per struct type (D6), cache slots reached only under the inode lock (D7). Not a whole-program race analysis; dependencies trusted.",
       "lockset / guarded-by / who-writes over go/ssa", "DESIGN.md section 3 C14")
 claim("C15", "other",
-      "Decides the parts of the layout that hold by construction for every disk size: cumulative region chain (K1), constant agreement (K2), format and assertion use the same range with the same strictness (K3), bitmap covers the disk by the x/k+1 form (K4), and the two bit-marking loops of mkfs mark exactly [0,n) and [m mod NBITBLOCK, NBITBLOCK) of the right blocks (K6, decided by the form of the loops; a marking of another form is reported as undecided). That the whole data region can be filled is not decided.",
+      "Decides the parts of the layout that hold by construction for every disk size: cumulative region chain (K1), constant agreement (K2), format and assertion use the same range with the same strictness (K3), bitmap covers the disk by the x/k+1 form (K4), and the two bit-marking loops of mkfs mark exactly [0,n) and [m mod NBITBLOCK, NBITBLOCK) of the right blocks (K6, decided by the form of the loops; a marking of another form is reported as undecided). That the whole data region can be filled is not decided. Also: bitmap blocks are read and put together in order (K5), link counts have fixed writers (K8).",
       "constant evaluation + sibling agreement over AST/SSA", "DESIGN.md section 3 C15")
 claim("C16", "translation_validation",
       "Validates the generated XDR codec and dispatch tables present in /repo against the RFC 1813 description (prot.x shipped in the pinned go-rpcgen module): wire grammar of every Xdr method extracted in encode and decode mode and compared node by node with the RFC's; constants by value; one registration per RFC procedure with matching numbers, argument/result types and handler; args.Error() checked before every handler and returned when set. The xdr primitives are trusted.",
       "XDR grammar extraction (AST abstract interpretation) vs parsed prot.x", "DESIGN.md section 3 C16")
 claim("C17", "other",
-      "Decides the validate/lock/one-transaction/commit(true)/unlock skeleton of each SimpleNFS handler, the bounds in its data path, layout constants and advertised limits, sizes grow only through the data path and the per-start initialisation keeps what the inodes hold (S4). The functional specification is not decided.",
+      "Decides the validate/lock/one-transaction/commit(true)/unlock skeleton of each SimpleNFS handler, the bounds in its data path, layout constants and advertised limits, sizes grow only through the data path and the per-start initialisation keeps what the inodes hold (S4). The functional specification is not decided. Also: the size limits of SETATTR, WRITE and FSINFO agree (S7), no reply says OK by default and a refusal decided is a refusal returned (S8).",
       "pairing / must-precede / guard dominance over go/ssa", "DESIGN.md section 3 C17")
 claim("C18", "other",
-      "Decides that MultiPut is one journal operation committed once with wait=true whose result is returned, that every pair is written on every iteration and nothing is read to decide what to write, that Get reads through the journal and returns a copy, and that the key-range predicates of MultiPut and Get accept the same set.",
+      "Decides that MultiPut is one journal operation committed once with wait=true whose result is returned, that every pair is written on every iteration and nothing is read to decide what to write, that Get reads through the journal and returns a copy, and that the key-range predicates of MultiPut and Get accept the same set. The range predicates refuse: the journal access lies on the accepting side of both comparisons.",
       "must-precede + sibling bounds agreement over go/ssa", "DESIGN.md section 3 C18")
 claim("C19", "other",
-      "Decides that each advertised limit equals the largest value its enforcement predicate accepts (name length, transfer size) and that every store to the file size is dominated by a comparison with the advertised maximum. Behaviour at the limit end to end is not decided.",
+      "Decides that each advertised limit equals the largest value its enforcement predicate accepts (name length, transfer size) and that every store to the file size is dominated by a comparison with the advertised maximum. Behaviour at the limit end to end is not decided. Also: request-sized transactions (WRITE, SYMLINK, READ) are bounded by a constant <= wtmax (M6), the refusing side of a length test answers false (M1), and what the server announces gets past the decoder: no codec bound tighter than RFC 1813 (M10).",
       "constant evaluation + normalised comparison agreement + guard dominance", "DESIGN.md section 3 C19")
 na("C02", "Equality of every reply with a reference file system over arbitrary operation sequences is a statement about run-time values; no sound static argument in reach decides it. Its only structural clause (unsupported procedures fail without effect) is decided as C09.A4; no other structural necessary condition beyond those decided under C08-C13/C19 exists.")
 
